@@ -2,9 +2,10 @@ import BipVerif.Driver.Codec
 import BipVerif.Driver.Bip32
 import BipVerif.Driver.Mnemonic
 import BipVerif.Driver.Addr
+import BipVerif.Driver.Bip44
 open BipVerif.Driver
 
-def allOps : List (String × Op) := codecOps ++ bip32Ops ++ mnemonicOps ++ addrOps
+def allOps : List (String × Op) := codecOps ++ bip32Ops ++ mnemonicOps ++ addrOps ++ bip44Ops
 
 def handle (line : String) : String :=
   match (line.trimAscii.toString.splitOn " ").filter (· ≠ "") with
